@@ -542,6 +542,28 @@ example : Block.to_bytes [9] [7] 5 (-9223372036854775808) (-1) =
     some ([255, 255, 255, 255] ++ [128, 0, 0, 0, 0, 0, 0, 0] ++ [0, 0, 0, 5] ++ [7] ++ [9]) ∧
     Block.to_bytes [] [] 0 0 (2 ^ 31) = none := by decide
 
+/-- block.py, the dict forms, REGENERATED (`Generated.TlEngine.Block.to_dict / from_dict / init_dyn`, `BlockIdS.init / init_dyn / to_dict /
+from_dict` from `BlockIdExt` / `BlockId`): a Python dict with the str keys `workchain … file_hash` is `dictVal d` (the model's `BlockDict`; hashes
+as `.hex()` strings).  For ALL ids / dicts: `to_dict` of both classes is the model's `toDict`; `from_dict` is the model's `fromDict` - `__init__` read
+with dynamically typed arguments: `isinstance(root_hash, str)` → `bytes.fromhex`, an absent hash builds no `BlockIdExt`, extra keys are ignored
+by `BlockId.from_dict`; hence `from_dict(to_dict(x)) = x` for both classes of the regenerated code; a dict WITHOUT `shard` gets the masterchain shard
+`-2^63` (`if shard is None`). -/
+theorem c14_src_blockid_dict (b : BlockIdExt) (s : BlockId) (d : BlockDict) (w q : Int) :
+    Block.to_dict b.fileHash b.rootHash b.seqno b.shard b.workchain = some (dictVal b.toDict) ∧
+    Block.from_dict (dictVal d) = BlockIdExt.fromDict d ∧
+    BlockIdS.to_dict s.seqno s.shard s.workchain = some (dictVal s.toDict) ∧
+    BlockIdS.from_dict (dictVal d) = some (BlockId.fromDict d) ∧
+    Block.from_dict (dictVal b.toDict) = some b ∧ BlockIdS.from_dict (dictVal s.toDict) = some s ∧
+    BlockIdS.from_dict (.obj none [(kWorkchain, .int w), (kSeqno, .int q)]) = some ⟨w, -9223372036854775808, q⟩ := by
+  refine ⟨block_to_dict_eq b, block_from_dict_eq d, blockid_to_dict_eq s, blockid_from_dict_eq d, ?_, ?_, ?_⟩
+  · rw [block_from_dict_eq]; exact blockIdExt_dict b
+  · rw [blockid_from_dict_eq, blockId_dict]
+  · simp [BlockIdS.from_dict, BlockIdS.init_dyn, dictGet?, List.lookup, kWorkchain, kShard, kSeqno, asInt?]
+
+example : Block.from_dict (.obj none [(kWorkchain, .int (-1)), (kShard, .int 5), (kSeqno, .int 7), (kRootHash, .hex [1, 2]), (kFileHash, .hex [3])]) =
+    some ⟨-1, 5, 7, [1, 2], [3]⟩ ∧
+    Block.from_dict (.obj none [(kWorkchain, .int (-1)), (kShard, .int 5), (kSeqno, .int 7), (kRootHash, .hex [1, 2])]) = none := by decide
+
 end SrcEngine
 
 /-! ### The PARSER regenerated from source (Generated/TlEngine.lean: `deserialize`, `deserialize_loop1/2/3`, `deserialize_rest1`)
@@ -627,37 +649,6 @@ example : deserializeF toy true 0 5 (natToLE 4 0x12345678 ++ (intLE 4 1 ++ (enco
       (2, .list [.obj (some 10) [(0, .int 0), (3, .list [])], .obj (some 10) [(0, .int 0), (3, .list [])]]), (3, .list [])], 40) := by
   rfl
 example : deserializeF toy2 true 0 5 (natToLE 4 0x64636261 ++ encodeBytes [97, 98, 99, 100]) true none = none := by rfl
-
-/-- **C19 for the REGENERATED `TlSchemas.deserialize`** (stated in this file because Properties/C19.lean cannot import `Model.Tl`: its
-`Tl.tlFuel` / `Tl.NoBareCycle` of the cost model would become ambiguous).  For EVERY schema table with distinct field names and without a
-cycle of bare references (`NoBareCycle T R`), EVERY byte string `d` (well formed or not) and both modes: the regenerated parser run with
-the recursion-depth budget `tlFuel R len(d) = (len(d)/4 + 1)(R + 2)` and the iteration budget `len(d) + 2` for its `while j < byte_len`
-loop returns what it returns with ANY larger budgets (`fuel ≥ tlFuel R len(d)`, any `slack`) - and that is the hand model's result:
-neither budget is ever the reason for `none`, so no loop and no recursion of the code runs longer than a bound in the input LENGTH,
-whatever lengths the input declares.  (Every `while` iteration consumes ≥ 1 byte of the content or breaks - `SrcTlParser.loop2_while`;
-the vector loop is bounded by the guard of fix 110bf4a; a boxed level consumes its 4-byte id and at most `R + 1` bare levels lie between
-two boxed ones - `c14_fuel_suffices`; the step COUNT of the cost model is `c19_tl_total`.) -/
-theorem c19_src_tl_total (T : Table) (hA : TableArgsOK T) (R : Nat) (hR : NoBareCycle T R) (auto : Bool) (d : Bytes)
-    (fuel slack : Nat) (hf : tlFuel R d.length ≤ fuel) :
-    deserializeF T auto slack fuel d true none = deserializeF T auto 0 (tlFuel R d.length) d true none ∧
-    deserializeF T auto 0 (tlFuel R d.length) d true none = Model.Tl.deserialize T auto (tlFuel R d.length) d := by
-  have h1 := (src_parser T hA auto slack fuel).1 d none
-  have h2 := (src_parser T hA auto 0 (tlFuel R d.length)).1 d none
-  refine ⟨?_, h2⟩
-  rw [h1, h2]
-  exact fuel_suffices T R hR auto d fuel hf
-
-/-- ... for the bundled table (bare references nest at most 5 deep), unconditionally. -/
-theorem c19_src_tl_total_bundled (auto : Bool) (d : Bytes) (fuel slack : Nat) (hf : tlFuel 5 d.length ≤ fuel) :
-    deserializeF Generated.Tl.table auto slack fuel d true none =
-      deserializeF Generated.Tl.table auto 0 (tlFuel 5 d.length) d true none :=
-  (c19_src_tl_total _ c14_table_args 5 c14_table_bare_depth auto d fuel slack hf).1
-
-/-- non-vacuity of `c19_src_tl_total`: the toy table meets both side conditions; with the budgets of the theorem a `bytes` content
-declaring 255 bytes over 0 remaining returns, and a vector declaring 2^22 elements over 0 bytes raises at once (guard). -/
-example : TableArgsOK toy2 ∧ NoBareCycle toy2 2 := by unfold TableArgsOK ArgsOK NoBareCycle; decide
-example : deserializeF toy2 true 0 (tlFuel 2 5) (natToLE 4 0x64636261 ++ [255]) true none = some (.obj (some 30) [(6, .str [])], 260) := by rfl
-example : deserializeF toy2 true 0 (tlFuel 2 12) (natToLE 4 0x12345678 ++ (intLE 4 0 ++ natToLE 4 (2 ^ 22))) true none = none := by rfl
 
 end SrcParser
 
